@@ -22,6 +22,7 @@
 package main
 
 import (
+	"context"
 	"fmt"
 	"os"
 	"os/exec"
@@ -29,6 +30,7 @@ import (
 	"runtime"
 	"strconv"
 	"strings"
+	"time"
 
 	"golang.org/x/telemetry/internal/counter"
 	"golang.org/x/telemetry/internal/crashmonitor"
@@ -68,8 +70,35 @@ func framesOf(pcs []uintptr) []frame {
 	return res
 }
 
-// record runs the real functions on text and renders the observation.
+// hangLimit: a real call that does not return within this time is reported as a
+// case "hang" with its input, and the harness stops (the stuck goroutine cannot
+// be killed).
+const hangLimit = 20 * time.Second
+
+func hang(what, text string) {
+	out.Note("hang")
+	out.Case(true, "hang", what, U(childSentinel), HS(text))
+	out.Close()
+	os.RemoveAll(scratchDir)
+	os.Exit(0)
+}
+
+// record runs the real functions on text (under the watchdog) and renders the observation.
 func record(text string) (fields []string, pcs []uintptr, name string, ok bool) {
+	done := make(chan struct{})
+	go func() {
+		defer close(done)
+		fields, pcs, name, ok = record1(text)
+	}()
+	select {
+	case <-done:
+	case <-time.After(hangLimit):
+		hang("telemetryCounterName", text)
+	}
+	return
+}
+
+func record1(text string) (fields []string, pcs []uintptr, name string, ok bool) {
 	status := "ok"
 	var err error
 	func() {
@@ -192,10 +221,15 @@ func runChild(text string) (status, name string) {
 	}
 	childSeq++
 	outf := filepath.Join(scratchDir, fmt.Sprintf("monitor-%d.out", childSeq))
-	cmd := exec.Command(exe)
+	ctx, cancel := context.WithTimeout(context.Background(), hangLimit)
+	defer cancel()
+	cmd := exec.CommandContext(ctx, exe)
 	cmd.Env = append(os.Environ(), "VH_MONITOR_OUT="+outf, "TMPDIR="+scratchDir)
 	cmd.Stdin = strings.NewReader(text)
 	cmd.Run() // Child ends with log.Fatal or os.Exit
+	if ctx.Err() != nil {
+		return "hang", ""
+	}
 	data, _ := os.ReadFile(outf)
 	os.Remove(outf)
 	var names []string
@@ -234,7 +268,7 @@ func caseChild(tag, text string) {
 			if len(pcs) > 16 {
 				pcs = pcs[:16]
 			}
-			fs = framesOf(pcs)
+			fs = framesOf(pcs) // runtime.CallersFrames only: no code under test
 		}
 	}()
 	fields = append(fields, I(int64(len(fs))))
